@@ -39,6 +39,15 @@ Proof.
   - apply nth_error_None. rewrite map_length, seq_length. lia.
 Qed.
 
+Lemma NoDup_app_single {A} (l : list A) x : NoDup l -> ~ In x l -> NoDup (l ++ [x]).
+Proof.
+  induction l as [|y l IH]; intros ND Hn; cbn [app].
+  - constructor; [intros []|constructor].
+  - inversion ND; subst. constructor.
+    + intros Hin. apply in_app_or in Hin as [Hin|[->|[]]]; auto. apply Hn. left. reflexivity.
+    + apply IH; auto. intros Hin. apply Hn. right. exact Hin.
+Qed.
+
 Section Define.
   Variable compiled params udata : Type.
   Notation scanner := (scanner compiled params udata).
@@ -170,6 +179,56 @@ Section Define.
   Lemma clone_eq (s : scanner) : clone s = s.
   Proof. destruct s; reflexivity. Qed.
 
+
+  (* ---------------------------------------------------------------- Compiler::define_symbol + Scanner::new *)
+  Lemma compiler_define_nodup syms name v :
+    NoDup (map fst syms) -> NoDup (map fst (fst (compiler_define syms name v))).
+  Proof.
+    intros H. unfold compiler_define. destruct (existsb _ syms) eqn:E; cbn [fst]; auto.
+    rewrite map_app. cbn [map fst]. apply NoDup_app_single; auto.
+    intros Hin. apply in_map_iff in Hin as ((n & w) & Hn & Hin). cbn [fst] in Hn. subst n.
+    assert (T : existsb (fun e : string * extval => String.eqb (fst e) name) syms = true).
+    { apply existsb_exists. exists (name, w). split; auto. apply String.eqb_refl. }
+    congruence.
+  Qed.
+
+  Lemma new_symmap_lookup_ge syms : forall i name idx, sym_lookup name (new_symmap syms i) = Some idx -> i <= idx < i + length syms.
+  Proof.
+    induction syms as [|[n w] r IH]; intros i name idx H; cbn [new_symmap sym_lookup length] in *; [discriminate|].
+    destruct (String.eqb n name).
+    - injection H as <-. lia.
+    - apply IH in H. lia.
+  Qed.
+
+  Lemma new_symmap_lookup syms : forall i k name v,
+    NoDup (map fst syms) -> nth_error syms k = Some (name, v) -> sym_lookup name (new_symmap syms i) = Some (i + k).
+  Proof.
+    induction syms as [|[n w] r IH]; intros i k name v ND H; [destruct k; discriminate|].
+    cbn [new_symmap sym_lookup]. destruct k as [|k]; cbn [nth_error] in H.
+    - injection H as -> ->. rewrite String.eqb_refl. f_equal. lia.
+    - cbn [map fst] in ND. inversion ND as [|? ? Hn ND']; subst.
+      destruct (String.eqb_spec n name) as [->|Hne].
+      + exfalso. apply Hn. apply in_map_iff. exists (name, v). split; auto. eapply nth_error_In; eauto.
+      + rewrite (IH (S i) k name v ND' H). f_equal. lia.
+  Qed.
+
+  (* what Scanner::new establishes *)
+  Lemma scanner_new_wf (c : compiled) (p0 : params) syms :
+    wf_scanner (scanner_new (udata := udata) c p0 syms).
+  Proof.
+    intros name idx H. unfold scanner_new in *. cbn [sc_inner i_symmap sc_syms] in *.
+    apply new_symmap_lookup_ge in H. rewrite map_length. lia.
+  Qed.
+
+  Lemma scanner_new_slots (c : compiled) (p0 : params) syms k name v :
+    NoDup (map fst syms) -> nth_error syms k = Some (name, v) ->
+    let s := scanner_new (udata := udata) c p0 syms in
+    sym_lookup name (i_symmap (sc_inner s)) = Some k /\ nth_error (sc_syms s) k = Some v.
+  Proof.
+    intros ND H s. unfold s, scanner_new. cbn [sc_inner i_symmap sc_syms]. split.
+    - apply (new_symmap_lookup syms 0 k name v ND H).
+    - rewrite nth_error_map, H. reflexivity.
+  Qed.
 End Define.
 Arguments define_symbol_cases {compiled params udata}.
 Arguments define_symbol_ok_iff {compiled params udata}.
@@ -183,6 +242,8 @@ Arguments apply_l_wf {compiled params udata}.
 Arguments fold_apply_inner {compiled params udata}.
 Arguments fold_apply_wf {compiled params udata}.
 Arguments clone_eq {compiled params udata}.
+Arguments scanner_new_wf {compiled params udata}.
+Arguments scanner_new_slots {compiled params udata}.
 
 Section Proofs.
   Variable compiled params udata input result : Type.
